@@ -1,6 +1,7 @@
 package gaussian
 
 import (
+	"errors"
 	"fmt"
 	"math"
 	"strconv"
@@ -229,6 +230,10 @@ func NewCalculator(
 	volume float64,
 	repeatWindow time.Duration,
 ) (*Calculator, error) {
+	if frequency <= 0 || frequency >= repeatWindow {
+		return nil, errors.New("iteration frequency must be positive and smaller than the repeat window")
+	}
+
 	multiplier := volume * float64(frequency)
 	gauss, err := gaussian.NewDistribution(float64(peak), float64(stddev))
 	if err != nil {
@@ -246,6 +251,9 @@ func NewCalculator(
 
 	// account for large standard deviations or peaks beyond the window
 	coveredRegion := gauss.CDF(float64(repeatWindow-frequency)) - gauss.CDF(0)
+	if !(coveredRegion > 0) {
+		return nil, errors.New("the distribution has no mass inside the repeat window")
+	}
 	multiplier /= coveredRegion
 
 	return &Calculator{
